@@ -3,6 +3,8 @@ package mon
 import (
 	"fmt"
 	"math/rand"
+	"sort"
+	"strings"
 
 	"verifharness/adapt"
 	"verifharness/refmodel"
@@ -326,4 +328,81 @@ func (g *CondGen) Cond(depth int) *refmodel.Cond {
 	default:
 		return &refmodel.Cond{Op: "or", Kids: []*refmodel.Cond{g.Cond(depth - 1), g.Cond(depth - 1)}}
 	}
+}
+
+// ---------------------------------------------------------------------------------------
+// confusable key pairs
+
+var confusable [][2][2]string
+
+// ConfusablePairs returns every pair of distinct (hash, range) string tuples over the alphabet
+// {a . \} (parts of length 1-3) that COLLIDE under at least one plausible-but-wrong composite-key
+// encoding: naive join with '.', join after escaping only '.', join after escaping '.' in the hash part
+// only, escaping '.' but not the escape character itself, and plain concatenation. A correct encoding
+// keeps all of them apart; an encoding bug of this family merges at least one pair.
+func ConfusablePairs() [][2][2]string {
+	if confusable != nil {
+		return confusable
+	}
+	parts := []string{}
+	var gen func(prefix string, n int)
+	gen = func(prefix string, n int) {
+		if prefix != "" {
+			parts = append(parts, prefix)
+		}
+		if n == 0 {
+			return
+		}
+		for _, c := range []string{"a", ".", "\\"} {
+			gen(prefix+c, n-1)
+		}
+	}
+	gen("", 3)
+	escDot := func(s string) string { return strings.ReplaceAll(s, ".", "\\.") }
+	escBoth := func(s string) string { return strings.ReplaceAll(strings.ReplaceAll(s, "\\", "\\\\"), ".", "\\.") }
+	escIfDot := func(s string) string { // escapes fully, but only when the part contains a '.'
+		if !strings.Contains(s, ".") {
+			return s
+		}
+		return escBoth(s)
+	}
+	encodings := []func(h, r string) string{
+		func(h, r string) string { return h + "." + r },
+		func(h, r string) string { return escDot(h) + "." + r },
+		func(h, r string) string { return escDot(h) + "." + escDot(r) },
+		func(h, r string) string { return escBoth(h) + "." + r },
+		func(h, r string) string { return escIfDot(h) + "." + r },
+		func(h, r string) string { return escIfDot(h) + "." + escIfDot(r) },
+		func(h, r string) string { return h + r },
+	}
+	seen := map[string]bool{}
+	for _, enc := range encodings {
+		groups := map[string][][2]string{}
+		for _, h := range parts {
+			for _, r := range parts {
+				e := enc(h, r)
+				groups[e] = append(groups[e], [2]string{h, r})
+			}
+		}
+		keys := []string{}
+		for e, g := range groups {
+			if len(g) > 1 {
+				keys = append(keys, e)
+			}
+		}
+		sort.Strings(keys)
+		for _, e := range keys {
+			g := groups[e]
+			for i := 0; i < len(g); i++ {
+				for j := i + 1; j < len(g) && j < i+4; j++ {
+					id := g[i][0] + "\x00" + g[i][1] + "\x01" + g[j][0] + "\x00" + g[j][1]
+					if !seen[id] {
+						seen[id] = true
+						confusable = append(confusable, [2][2]string{g[i], g[j]})
+					}
+				}
+			}
+		}
+	}
+	return confusable
 }
